@@ -32,7 +32,9 @@ MANIFEST = {
             'for every input, every flag word and every initial buffer, incl. the one or two terminating NULs; '
             'UTF-8 <-> UTF-16 round trip for all sequences of scalars.  The model is tied to the C by the differential '
             'engine `uni` which includes archive_string.c into the harness and drives every static codec, the public '
-            'conversion objects and the archive_mstring views under ASan/UBSan with exact-size blocks.',
+            'conversion objects and the archive_mstring views under ASan/UBSan with exact-size blocks, incl. a systematic '
+            'family of inputs whose output lands within 4 bytes of every archive_string growth size from 32 bytes to 76 KB, '
+            'for every conversion direction, into empty and pre-filled destinations.',
     'note': 'Trusted: Lean kernel; extractor (utf8_count, limits, surrogate bounds, SCONV bits); correspondence harness. '
             'Partial: iconv-backed charsets and NFC/NFD tables are exercised only by round-trip tests; names through '
             'pax/zip/7zip/Joliet belong to the codec engine of C02. malloc failure not driven.',
@@ -198,6 +200,34 @@ def unhx(s):
     return b'' if s == '-' else bytes.fromhex(s)
 
 
+def pattern(n):
+    return bytes(0x61 + i % 26 for i in range(n))
+
+
+def unop(s):
+    """Operand of the protocol: '-' | hex | '@N' (pattern bytes) | 'R<k>:<unit>:<tail>' (unit repeated k times + tail)."""
+    if s.startswith('@'):
+        return pattern(int(s[1:]))
+    if s.startswith('R'):
+        k, u, tl = s[1:].split(':')
+        return unhx(u) * int(k) + unhx(tl)
+    return unhx(s)
+
+
+def growth_borders(limit=65536):
+    """Buffer sizes archive_string_ensure steps through: 32, doubling below 8192, then +25 % (first one >= limit included)."""
+    out, b = [], 32
+    while True:
+        out.append(b)
+        if b >= limit:
+            return out
+        b = b + b if b < 8192 else b + b // 4
+
+
+def be32(c):
+    return c.to_bytes(4, 'big')
+
+
 FLAG = {'to8': 1 << 8, 'from8': 1 << 9, 'to16be': 1 << 10, 'from16be': 1 << 11, 'to16le': 1 << 12, 'from16le': 1 << 13}
 ICONV = {
     'KOI8-R': ('koi8_r', 'абвгдежзиклмнопрстуфхцчшщъыьэюяАБВЯЖ'),
@@ -257,12 +287,36 @@ class Uni(Engine):
     # ---- running: the harness forks one child per case and LSan scans the whole heap (all input
     # lines included) at each child's exit, so large runs go through several harness processes ----
     CHUNK = 250
-    JOBS = 8
+    JOBS = 12
 
     def _chunks(self, cases):
-        return [cases[i:i + self.CHUNK] for i in range(0, len(cases), self.CHUNK)]
+        """round-robin groups (heavy cases sit together in the list), at most CHUNK cases per process"""
+        g = max(self.JOBS, -(-len(cases) // self.CHUNK))
+        return [cases[i::g] for i in range(g)]
+
+    @staticmethod
+    def _unchunk(parts, n):
+        g = len(parts)
+        out = [None] * n
+        for i, part in enumerate(parts):
+            for j, o in enumerate(part):
+                out[i + j * g] = o
+        return out
+
+    WATCHDOG = re.compile(r'^!(crash|teardown) (signal=(14|27)|harness-timeout)')
 
     def run_impl(self, exe, cases):
+        """A case the watchdog killed is run once more on its own before it is believed (the CPU-time watchdog does
+        not fire under load, the wall-clock backstop could)."""
+        out, err = self._run_impl_all(exe, cases)
+        again = [i for i, o in enumerate(out) if any(self.WATCHDOG.match(l) for l in o)]
+        for i in again[:6]:
+            o2, e2 = super().run_impl(exe, [cases[i]])
+            if not any(self.WATCHDOG.match(l) for l in o2[0]):
+                out[i] = o2[0]
+        return out, err
+
+    def _run_impl_all(self, exe, cases):
         if len(cases) <= self.CHUNK:
             return super().run_impl(exe, cases)
         env = dict(os.environ)
@@ -285,12 +339,12 @@ class Uni(Engine):
                     o += ['!crash harness-timeout'] * (len(c.ops) - len(o))
                 eh.seek(0)
                 return res, eh.read()[-4000:]
-        out, errs = [], []
+        parts, errs = [], []
         with ThreadPoolExecutor(self.JOBS) as ex:
             for o, e in ex.map(one, self._chunks(cases)):
-                out += o
+                parts.append(o)
                 errs.append(e)
-        return out, ''.join(errs)[-8000:]
+        return self._unchunk(parts, len(cases)), ''.join(errs)[-8000:]
 
     def run_model(self, cases, impl):
         if len(cases) <= self.CHUNK:
@@ -310,13 +364,11 @@ class Uni(Engine):
             if r.returncode != 0:
                 raise BuildError('model driver failed: ' + r.stderr[-2000:])
             return split_cases(r.stdout, len(chunk))
-        out = []
         ch = self._chunks(cases)
         ich = self._chunks(impl)
         with ThreadPoolExecutor(self.JOBS) as ex:
-            for o in ex.map(one, zip(ch, ich)):
-                out += o
-        return out
+            parts = list(ex.map(one, zip(ch, ich)))
+        return self._unchunk(parts, len(cases))
 
     # ---- generators ---------------------------------------------------------
     def gen(self, rng, tier):
@@ -330,6 +382,149 @@ class Uni(Engine):
             yield Case(f'app{i}', list(self.app_ops(rng, 40)))
             yield Case(f'pub{i}', list(self.pub_ops(rng, 25)))
         yield from self.enums(rng, tier)
+        yield from self.borders(tier)
+
+    # ---- systematic buffer-border family -------------------------------------------------------------------------
+    # For every conversion direction the engine drives and every size B that archive_string_ensure steps through
+    # (32, 64, ... 8192, then +25 % up to the first size >= 64 KiB): inputs whose OUTPUT lands at B-4 .. B+4 bytes,
+    # with every character class (1-, 2-, 3-, 4-byte UTF-8, CESU-8 pair / what the direction has) in the last two
+    # positions, into an empty destination and into one that already holds text (or, for archive_mstring, whose
+    # internal strings were sized by an earlier value).  Deterministic: no random choice.  ASan judges the stores,
+    # the model predicts the bytes.
+    def directions(self):
+        c3 = next(c for c in (0x4e00, 0x3042, 0x20ac, 0xe000) if Dom.safe(c))
+        CP = {'1': 0x62, '2': 0xe9, '3': c3, '4': 0x1f600}
+        FILL = {'1': 0x61, '4': 0x1f431}
+        w8 = {'1': 1, '2': 2, '3': 3, '4': 4, 'P': 4}
+        w16 = {'1': 2, '2': 2, '3': 2, '4': 4, 'P': 4}
+
+        def src8(k):
+            return enc8(0xd83d) + enc8(0xde00) if k == 'P' else enc8(CP[k])
+
+        def srcs(fe):
+            """class -> source bytes, filler -> source bytes"""
+            if fe == '8':
+                return {k: src8(k) for k in '1234P'}, {k: enc8(v) for k, v in FILL.items()}
+            if fe == 'wcs':
+                return {k: be32(CP[k]) for k in '1234'}, {k: be32(v) for k, v in FILL.items()}
+            be = fe == '16be'
+            return {k: enc16(CP[k], be) for k in '1234'}, {k: enc16(v, be) for k, v in FILL.items()}
+        D = []
+        encs = ['8', '16be', '16le']
+        prim_app = {('8', '16le'), ('16be', '8')}
+        for fe in encs:
+            for te in encs:
+                flag = flag_of(fe, te)
+                D.append(dict(name=f'app{fe}>{te}', fe=fe, w=w8 if te == '8' else w16, unit=1 if te == '8' else 2,
+                              primary=(fe, te) in prim_app,
+                              empty=lambda s, flag=flag: f'app {flag} 0 - {s}',
+                              pre=lambda s, B, P, flag=flag: f'app {flag} {B} @{P} {s}', pre_exact=True))
+        D.append(dict(name='u8u8', fe='8', w=w8, unit=1, primary=True, empty=lambda s: f'u8u8 {s}',
+                      pre=lambda s, B, P: f'u8u8 {s} {P}'))
+        D.append(dict(name='la2', fe='8', w=w8, unit=1, primary=True, nopair=True, empty=lambda s: f'la2 {s}',
+                      pre=lambda s, B, P: f'la2 {s} {P}'))
+        for cs in ('UTF-16LE', 'UTF-16BE', 'UTF-8'):
+            D.append(dict(name='to' + cs, fe='8', w=w8 if cs == 'UTF-8' else w16, unit=1 if cs == 'UTF-8' else 2, primary=False,
+                          empty=lambda s, cs=cs: f'conv to {cs} {s}', pre=lambda s, B, P, cs=cs: f'conv to {cs} {s} {P}',
+                          even_pre=cs != 'UTF-8'))
+            fe = {'UTF-8': '8', 'UTF-16LE': '16le', 'UTF-16BE': '16be'}[cs]
+            D.append(dict(name='from' + cs, fe=fe, w=w8, unit=1, primary=cs == 'UTF-8',
+                          empty=lambda s, cs=cs: f'conv from {cs} {s}', pre=lambda s, B, P, cs=cs: f'conv from {cs} {s} {P}'))
+            D.append(dict(name='msl' + cs, fe=fe, w=w8, unit=1, primary=False,
+                          empty=lambda s, cs=cs: f'msl {cs} {s}', pre=lambda s, B, P, cs=cs: f'msl {cs} {s} {P}', prior=True))
+        for kind, fe in (('wcs', 'wcs'), ('mbs', '8'), ('utf8', '8')):
+            D.append(dict(name='ms' + kind, fe=fe, w=w8, unit=1, primary=kind != 'utf8', nopair=True,
+                          empty=lambda s, kind=kind: f'ms {kind} {s}', pre=lambda s, B, P, kind=kind: f'ms {kind} {s} {P}', prior=True))
+        # best effort: one UTF-16 unit per source byte / one byte per UTF-16 unit or pair
+        for be in (0, 1):
+            D.append(dict(name=f'bto{be}', raw=({'a': b'b', 'x': b'\xff'}, {'1': b'a'}), w={'a': 2, 'x': 2, 'f1': 2}, unit=2,
+                          primary=be == 1, empty=lambda s, be=be: f'bto {be} 0 - {s}',
+                          pre=lambda s, B, P, be=be: f'bto {be} {B} @{P} {s}', pre_exact=True))
+            D.append(dict(name=f'bfrom{be}', raw=({'a': enc16(0x62, be), 'e': enc16(0xe9, be), 'p': enc16(0x1f600, be),
+                                                    's': enc16(0xdc00, be)}, {'1': enc16(0x61, be), '4': enc16(0x1f431, be)}),
+                          w={'a': 1, 'e': 1, 'p': 1, 's': 1, 'f1': 1, 'f4': 1}, unit=1, primary=be == 0,
+                          empty=lambda s, be=be: f'bfrom {be} 0 - {s}', pre=lambda s, B, P, be=be: f'bfrom {be} {B} @{P} {s}',
+                          pre_exact=True))
+        # iconv-backed charsets (TEST: the model echoes; ASan and the round-trip oracle judge): border on the charset
+        # form ("mid") and on the UTF-8 form coming back
+        for cs, cls in (('KOI8-R', {'a': ('b', 1), 'c': ('\u0431', 1)}), ('ISO-8859-1', {'a': ('b', 1), 'c': ('\u00e9', 1)}),
+                        ('CP932', {'a': ('b', 1), 'h': ('\uff71', 1), 'k': ('\u6f22', 2)})):
+            srcmap = {k: v[0].encode('utf-8') for k, v in cls.items()}
+            for side in ('mid', 'back'):
+                w = {k: (v[1] if side == 'mid' else len(v[0].encode('utf-8'))) for k, v in cls.items()}
+                fills = {'1': b'a'} if side == 'mid' else {'1': b'a', '4': max(srcmap.values(), key=len)}
+                w.update({'f' + k: (1 if side == 'mid' or k == '1' else len(fills['4'])) for k in fills})
+                D.append(dict(name=f'rt{cs}-{side}', raw=(srcmap, fills), w=w, unit=1, primary=cs == 'KOI8-R' and side == 'back',
+                              empty=lambda s, cs=cs: f'rt {cs} {s}', pre=None))
+        for d in D:
+            if 'raw' in d:
+                d['cls'], d['fill'] = d['raw']
+            else:
+                d['cls'], d['fill'] = srcs(d['fe'])
+                if d.get('nopair') or d['fe'] != '8':
+                    d['cls'] = {k: v for k, v in d['cls'].items() if k != 'P'}
+                d['w'] = dict(d['w'], f1=d['w']['1'], f4=d['w']['4'])
+        return D
+
+    def borders(self, tier):
+        quick = tier == 'quick'
+        small, large = [], []
+        for d in self.directions():
+            cls = sorted(d['cls'])
+            pad = cls[0] if d['w'][cls[0]] == d['unit'] else None
+            for B in growth_borders():
+                big = B > 8192
+                if quick and big and not d['primary']:
+                    continue
+                full = not quick or B <= 32
+                for di, delta in enumerate(range(-4, 5)):
+                    if full:
+                        pairs = [(a, b) for a in cls for b in cls]
+                    elif big:  # quick tier, sizes above 8192: every class last, the one before it rotating with delta
+                        pairs = sorted({(cls[(i + di) % len(cls)], c) for i, c in enumerate(cls)})
+                    else:      # every class in either position at every delta, the partner rotating with delta
+                        pairs = sorted({(cls[(i + di) % len(cls)], c) for i, c in enumerate(cls)} | {(c, c) for c in cls} |
+                                       {(c, cls[(i + di + 1) % len(cls)]) for i, c in enumerate(cls)})
+                    for c1, c2 in pairs:
+                        tailw = d['w'][c1] + d['w'][c2]
+                        variants = []
+                        for f in sorted(d['fill']):
+                            if f == '4' and quick and not big and B > 256:
+                                continue
+                            if f == '1' and big and (quick or not d['primary']):
+                                continue
+                            variants.append((f, None))
+                        if d['pre'] is not None:
+                            variants.append(('1', 'pre'))
+                        for f, how in variants:
+                            wf = d['w']['f' + f]
+                            if how == 'pre':
+                                if d.get('pre_exact'):       # exact-size buffer of B bytes, three fillers
+                                    P = B + delta - tailw - 3 * wf
+                                    if P < 0 or P >= B or (d['unit'] == 2 and P % 2):
+                                        continue
+                                    total = 3 * wf + tailw
+                                elif d.get('prior'):         # internal strings sized B by an earlier value of B-1 bytes
+                                    P, total = B - 1, B + delta
+                                else:                        # destination holds B/2-1 bytes (its buffer then is B/2; first growth: B)
+                                    P = B // 2 - 1 - (1 if d.get('even_pre') else 0)
+                                    total = B + delta - P
+                            else:
+                                P, total = None, B + delta
+                            rem = total - tailw
+                            if rem < 0:
+                                continue
+                            k, r = divmod(rem, wf)
+                            if r and (pad is None or r % d['unit']):
+                                continue
+                            tail = (d['cls'][pad] * (r // d['unit']) if r else b'') + d['cls'][c1] + d['cls'][c2]
+                            s = f"R{k}:{hx(d['fill'][f])}:{hx(tail)}"
+                            op = d['empty'](s) if how is None else d['pre'](s, B, P)
+                            (large if big else small).append(op)
+        for i in range(0, len(small), 500):
+            yield Case(f'border-s{i // 500}', small[i:i + 500])
+        for i in range(0, len(large), 40):
+            yield Case(f'border-l{i // 40}', large[i:i + 40])
 
     def fixed(self, tier):
         ops = []
@@ -418,7 +613,7 @@ class Uni(Engine):
         for _ in range(n):
             nv = rng.choice([0, 1, 3, 8, 30])
             nb = rng.choice([0, 0, 1, 2, 5])
-            yield f'u8u8 {hx(utf8_string(rng, nv, nb, nul=rng.random() < 0.1))}'
+            yield f'{"la2" if rng.random() < 0.15 else "u8u8"} {hx(utf8_string(rng, nv, nb, nul=rng.random() < 0.1))}'
 
     def app_ops(self, rng, n):
         encs = ['8', '16be', '16le']
@@ -534,11 +729,22 @@ class Uni(Engine):
         for op, o in zip(case.ops, impl):
             if o.startswith('!'):
                 return f'implementation aborted on `{op[:80]}`: {o}'
-            if o in ('bad-op', 'nomem', 'no-conv'):
+            if o in ('bad-op', 'nomem', 'no-conv') or '#' in o:      # long outputs come as digests: model + ASan judge those
                 continue
             w = op.split()
             f = getattr(self, 'o_' + w[0], None) or (self.o_dec if w[0].startswith('d') else self.o_enc if w[0].startswith('e') and w[0] not in ('enum', 'enumb') else None)
             if f:
+                # compact operands -> hex; a destination prefix given by length -> checked and stripped
+                if w[0] in ('app', 'u8u8', 'conv', 'ms', 'rt'):
+                    w = [hx(unop(x)) if (x[:1] in '@R' and k > 0 and x[1:2].isdigit()) else x for k, x in enumerate(w)]
+                    npre = int(w.pop()) if (w[0] == 'u8u8' and len(w) == 3) or (w[0] == 'conv' and len(w) == 5) else None
+                    if w[0] == 'ms' and len(w) == 4:
+                        w.pop()
+                    if npre is not None:
+                        d = self.kv(o); out = unhx(d['out'])
+                        if not out.startswith(pattern(npre)):
+                            return f'`{op[:100]}`: existing content of the destination changed'
+                        o = f"r={d['r']} out={hx(out[npre:])}"
                 v = f(w, o)
                 if v:
                     return f'`{op[:100]}` -> `{o[:120]}`: {v}'
@@ -709,11 +915,16 @@ class Uni(Engine):
 
     def stats(self, cases, impl):
         st = {'ops': {}, 'dec_return_values': {}, 'conv_failures_reported': 0, 'conv_ok': 0, 'app_grew_buffer': 0, 'enum_points': 0,
-              'rt_charsets': {}}
+              'rt_charsets': {}, 'border_family_ops': {}, 'digested_outputs': 0}
         for c, im in zip(cases, impl):
             for op, o in zip(c.ops, im):
                 w = op.split()
                 st['ops'][w[0]] = st['ops'].get(w[0], 0) + 1
+                if c.label.startswith('border-'):
+                    k = w[0] + (' ' + w[1] if w[0] in ('ms', 'msl', 'rt', 'conv') else '')
+                    st['border_family_ops'][k] = st['border_family_ops'].get(k, 0) + 1
+                if '#' in o:
+                    st['digested_outputs'] += 1
                 if w[0] in ('d8r', 'd8', 'dc8', 'd16be', 'd16le'):
                     m = re.match(r'r=(-?\d+)', o)
                     if m:
